@@ -77,7 +77,16 @@ class Path:
             return
         if c is False:
             raise PathEnd("assumption false")
+        if z3.is_and(c):
+            for ch in c.children():
+                self.assume(ch)
+            return
         self.pc.append(c)
+        if has_quantifier(c):
+            # quantified facts (views, well-formedness) are kept for the proof obligations but are not given to the
+            # branching solver: feasibility pruning stays ground and fast; an infeasible path explored because of this is
+            # harmless (its obligations are discharged under the full path condition)
+            return
         self.solver.add(c)
 
     def sat(self, *extra):
@@ -131,7 +140,7 @@ class Path:
         if k < len(self.decisions):
             d = self.decisions[k]
             if d >= len(feas):
-                raise CheckerError(f"decision replay out of range at {label}")
+                raise Limitation(f"decision replay diverged at {label} (solver answers changed between runs)")
         else:
             d = 0
         self.taken.append((d, len(feas), label))
@@ -208,6 +217,10 @@ class Engine:
         if isinstance(t, SStr) and len(t.pieces) == 1 and not isinstance(t.pieces[0], str) and isinstance(t.pieces[0].info, dict):
             t.pieces[0].info.setdefault("type", names[i].name)
         return names[i]
+
+    def fresh_id(self):
+        self.fresh_n += 1
+        return self.fresh_n
 
     # -- fresh symbols -------------------------------------------------------------------------------
     def fresh(self, prefix, sort):
@@ -449,8 +462,8 @@ class Engine:
                 return to_arith(a) + to_arith(b)
             if isinstance(a, (list, tuple)) and type(a) == type(b):
                 return a + b
-            if isinstance(a, MapList) and isinstance(b, (list, MapList)):
-                return self.maplist_concat(a, b, path)
+            if isinstance(a, MapList) and isinstance(b, list):
+                return a.concat(self, path, b)
             if isinstance(a, Obj) and a.kind == "pregex":
                 return self.call_method(a, "__add__", [b], {}, fr, path)
             if isinstance(b, Obj) and b.kind == "pregex":
@@ -737,6 +750,8 @@ class Engine:
                 raise Limitation("slice step")
             return self.slice(base, lo, hi, path)
         idx = self.ev(node.slice, fr, path)
+        if isinstance(base, (SymSeq, MapList)) and fr.module is not None and fr.module is getattr(self, "spec_module", None):
+            return base.getter(zterm(to_arith(idx)))      # specification context: indexing is total
         return self.index_(base, idx, path)
 
     def index_(self, base, idx, path):
@@ -847,7 +862,7 @@ class Engine:
                 self.assign(g.target, it.getter(i), f2, path)
                 return self.ev(node.elt, f2, path)
             if isinstance(it, MapList):
-                return MapList(it.length, getter, "val", "comp")
+                return MapList(it.length, getter, elem_kind_of(getter(self.fresh("probe", IntS))), "comp")
             return SymSeq(it.length, getter, "comp")
         items = self.iter_concrete(it, path)
         out = []
@@ -917,6 +932,16 @@ class Engine:
         # super() special form
         if isinstance(node.func, ast.Name) and node.func.id == "super" and not node.args:
             return SuperRef(fr.cls, fr.self_obj)
+        if isinstance(node.func, ast.Attribute) and isinstance(node.func.value, ast.Name) and node.func.value.id in fr.env \
+                and isinstance(fr.env[node.func.value.id], MapList) and node.func.attr in ("pop", "append", "add"):
+            lst = fr.env[node.func.value.id]
+            a = [self.ev(x, fr, path) for x in node.args]
+            if node.func.attr == "pop":
+                val, new = lst.pop(self, path, *a)
+                fr.env[node.func.value.id] = new
+                return val
+            fr.env[node.func.value.id] = lst.append(self, path, a[0])
+            return None
         f = self.ev(node.func, fr, path)
         args, kwargs = [], {}
         for a in node.args:
@@ -1053,6 +1078,7 @@ class Engine:
             tmp.node, tmp.cls, tmp.module, tmp.qualname = node, cls, module, qual
             env = self.bind_args(tmp, args, kwargs or {}, None, path)
         fr = Frame(fi, env, cls, module, env.get("self"))
+        fr.args0 = dict(env)
         path.depth += 1
         if path.depth > 40:
             raise Limitation("inline depth")
@@ -1204,6 +1230,9 @@ class Engine:
 
     def bi_list(self, args, kwargs, fr, path):
         if not args:
+            c = self.contracts.get(getattr(fr.func, "qualname", None)) or {}
+            if c.get("lists") == "concrete":
+                return []
             return TermList()
         v = args[0]
         if isinstance(v, (tuple, list)):
@@ -1233,6 +1262,9 @@ class Engine:
 
     def bi_set(self, args, kwargs, fr, path):
         if not args:
+            c = self.contracts.get(getattr(fr.func, "qualname", None)) or {}
+            if c.get("lists") == "concrete":
+                return MapList(z3.IntVal(0), lambda k: None, "val", "set()")     # accumulator: add() appends
             return SetV([])
         v = args[0]
         if isinstance(v, (list, tuple)):
@@ -1241,6 +1273,8 @@ class Engine:
             return v
         if isinstance(v, (MapList, SymSeq)):
             return SymSet(v)
+        if isinstance(v, SymSet):
+            return v
         raise Limitation(f"set({v!r})")
 
     def bi_max(self, args, kwargs, fr, path):
@@ -1536,6 +1570,18 @@ class Engine:
                 raise Limitation("attribute store on a non-object")
             path.setf(base, mangle(target.attr, fr.cls), v)
         elif isinstance(target, ast.Subscript):
+            if isinstance(target.value, ast.Subscript) and isinstance(target.value.value, ast.Name) \
+                    and isinstance(fr.env.get(target.value.value.id), MapList):
+                # lst[j][c] = v  : update one component of a pair element
+                lst = fr.env[target.value.value.id]
+                j = self.ev(target.value.slice, fr, path)
+                c = self.ev(target.slice, fr, path)
+                if c not in (0, 1):
+                    raise Limitation("component store with a symbolic component")
+                lo, hi = lst.getter(zterm(j)).items
+                newel = CharPair(v, hi) if c == 0 else CharPair(lo, v)
+                fr.env[target.value.value.id] = lst.set(self, path, j, newel)
+                return
             base = self.ev(target.value, fr, path)
             idx = self.ev(target.slice, fr, path)
             self.store_index(target.value, base, idx, v, fr, path)
@@ -1769,6 +1815,41 @@ PY_BUILTINS = {"isinstance", "issubclass", "len", "str", "int", "bool", "float",
                "sorted", "open", "super", "getattr"}
 
 
+def elem_kind_of(v):
+    if isinstance(v, CharV):
+        return "char"
+    if isinstance(v, CharPair) or (isinstance(v, (tuple, list)) and len(v) == 2 and all(isinstance(x, CharV) for x in v)):
+        return "pair"
+    try:
+        as_pair(v)
+        return "rangestr"
+    except TypeError:
+        return "val"
+
+
+_qmemo = {}
+
+
+def has_quantifier(t):
+    k = t.get_id()
+    if k in _qmemo:
+        return _qmemo[k]
+    seen = set()
+    stack = [t]
+    res = False
+    while stack:
+        x = stack.pop()
+        if x.get_id() in seen:
+            continue
+        seen.add(x.get_id())
+        if z3.is_quantifier(x):
+            res = True
+            break
+        stack.extend(x.children())
+    _qmemo[k] = res
+    return res
+
+
 def kind_of(v):
     if v is None:
         return "None"
@@ -1811,7 +1892,22 @@ def merge_values(c, a, b):
         return z3.If(c, zterm(to_arith(a)), zterm(to_arith(b)))
     if isinstance(a, tuple) and isinstance(b, tuple) and len(a) == len(b):
         return tuple(merge_values(c, x, y) for x, y in zip(a, b))
+    if isinstance(a, CharV) and isinstance(b, CharV):
+        return CharV(z3.If(c, zterm(a.code), zterm(b.code)))
+    if isinstance(a, (CharPair, tuple, list)) and isinstance(b, (CharPair, tuple, list)):
+        try:
+            a1, a2 = as_pair(a)
+            b1, b2 = as_pair(b)
+            return CharPair(CharV(z3.If(c, a1, b1)), CharV(z3.If(c, a2, b2)))
+        except TypeError:
+            pass
     if is_strv(a) and is_strv(b):
+        try:
+            a1, a2 = as_pair(a)
+            b1, b2 = as_pair(b)
+            return range_string(CharV(z3.If(c, a1, b1)), CharV(z3.If(c, a2, b2)))
+        except TypeError:
+            pass
         return SStr([Atom(z3.If(c, str_term(a), str_term(b)), "ite")])
     return Merged(c, a, b)
 
